@@ -119,7 +119,6 @@ func HStoreLoad() {
 	ls := buildLinkSystem(nd.Choose("storage", 2))
 	// a value built in canonical insertion order, through the other implementation
 	ref := gen.MustBuild(v)
-
 	var l1, l2, l3 datamodel.Link
 	var err error
 	nd.NoPanic("compute", func() { l1, err = ls.ComputeLink(lp, n) })
@@ -237,4 +236,68 @@ func canonLex(v *refval.V) *refval.V {
 		return n
 	}
 	return v
+}
+
+// HAfterFailure: the history starts with an operation that fails part-way through encoding (a
+// list whose second element the codec cannot encode, after bytes have already reached the hasher);
+// what follows must give the links and bytes a fresh link system gives.
+func HAfterFailure() {
+	lsys.Register()
+	cc := cases[nd.Choose("codec", len(cases))]
+	v := gen.FromShape("", cc.shapes[0])
+	if cc.code == 0x0129 || cc.code == 0x0200 {
+		asciiOnly(v)
+	}
+	n := gen.MustBuild(v)
+	lp, hk := prototype(cc.code)
+	nd.Assume(hk != 3)
+	ls := buildLinkSystem(nd.Choose("storage", 2))
+	fails := nd.Param("FAILS", 1)
+	for i := 0; i < fails; i++ {
+		bad := basicnode.Prototype.List.NewBuilder()
+		la, _ := bad.BeginList(2)
+		if cc.code == 0x55 {
+			la.AssembleValue().AssignInt(1) // raw encodes bytes only
+		} else {
+			la.AssembleValue().AssignString("x")
+		}
+		la.AssembleValue().AssignLink(cidlink.Link{}) // an undefined CID
+		la.Finish()
+		var e error
+		nd.NoPanic("failing operation", func() {
+			if nd.Choose("failop", 2) == 0 {
+				_, e = ls.Store(linking.LinkContext{}, lp, bad.Build())
+			} else {
+				_, e = ls.ComputeLink(lp, bad.Build())
+			}
+		})
+		nd.Assert(e != nil, "an unencodable value is refused")
+	}
+	fresh := buildLinkSystem(0)
+	var l0, l1, l2 datamodel.Link
+	var err error
+	nd.NoPanic("fresh", func() { l0, err = fresh.ComputeLink(lp, n) })
+	nd.Assert(err == nil && l0 != nil, "ComputeLink on a fresh link system succeeds")
+	if nd.Choose("then", 2) == 0 {
+		nd.NoPanic("compute", func() { l1, err = ls.ComputeLink(lp, n) })
+		nd.Assert(err == nil && l1 != nil && sameLink(l0, l1), "ComputeLink after a failed operation = ComputeLink on a fresh link system")
+	}
+	nd.NoPanic("store", func() { l2, err = ls.Store(linking.LinkContext{}, lp, n) })
+	nd.Assert(err == nil && l2 != nil && sameLink(l0, l2), "Store after a failed operation returns the link a fresh link system computes")
+	if l2 == nil {
+		return
+	}
+	var got datamodel.Node
+	nd.NoPanic("load", func() { got, err = ls.Load(linking.LinkContext{}, l2, basicnode.Prototype.Any) })
+	nd.Assert(err == nil && got != nil, "the value stored after a failed operation loads (its hash verifies)")
+	if got != nil {
+		want := v
+		if cc.code == 0x71 {
+			want = refcbor.Canon(v)
+		} else if cc.code == 0x0129 {
+			want = canonLex(v)
+		}
+		nd.Assert(refval.Equal(refval.Of(got), want), "and is the value stored")
+	}
+	nd.Reach("end")
 }
